@@ -221,7 +221,22 @@ func (obj *SparseInt64Vector) Slice(i, j int) Vector {
   return obj.SLICE(i, j)
 }
 func (obj *SparseInt64Vector) Swap(i, j int) {
-  obj.values[i], obj.values[j] = obj.values[j], obj.values[i]
+  vi, ok1 := obj.values[i]
+  vj, ok2 := obj.values[j]
+  switch {
+  case ok1 && ok2:
+    obj.values[i], obj.values[j] = vj, vi
+  case ok1:
+    obj.values[j] = vi
+    delete(obj.values, i)
+    obj.indexInsert(j)
+    obj.indexDelete(i)
+  case ok2:
+    obj.values[i] = vj
+    delete(obj.values, j)
+    obj.indexInsert(i)
+    obj.indexDelete(j)
+  }
 }
 func (obj *SparseInt64Vector) AppendScalar(scalars ...Scalar) Vector {
   r := obj.Clone()
